@@ -285,6 +285,32 @@ pub fn generate(g: &mut Gen, thorough: bool) {
         let d = data(&mut g.rng, 3);
         g.push(super::op_line("default", &[], &[], &format!("cart ellps={name}"), "both", "F", &d), "model-every-builtin-ellipsoid", true);
     }
+    // ellipsoids of every shape a text can describe: next to a sphere, next to a disc (rf next to 1), beyond it,
+    // prolate, tiny, huge, of size zero - on every operator that has an ellipsoid, both directions, ordinary
+    // coordinates (the iterations of the inverses are where such shapes bite)
+    for shape in [
+        "6378137,1.001", "6378137,1.0001", "6378137,1.00001", "6378137,1.0000001", "6378137,1", "6378137,0.9999", "6378137,0.5", "6378137,-300", "6378137,1e-9", "6378137,1e300", "6378137,2",
+        "1,1.001", "1e-300,300", "1e300,300", "0,300", "-6378137,300", "6378137,1.5", "6378137,1.01", "6378137,3", "6378137,10",
+    ] {
+        for head in [
+            "merc", "merc lat_ts=56", "webmerc", "tmerc lon_0=9", "utm zone=32", "btmerc lon_0=9", "lcc lat_1=30", "lcc lat_1=33 lat_2=45 lat_0=40", "laea lat_0=52 lon_0=10", "laea lat_0=90", "somerc lat_0=46.95 lon_0=7.44",
+            "omerc latc=4 lonc=115 alpha=53.3 gamma_c=53.1", "cart", "latitude geocentric", "latitude conformal", "latitude rectifying", "latitude authalic", "geodesic", "curvature mean", "gravity grs80",
+            "molodensky dx=1 dy=2 dz=3 ellps_1=GRS80", "permtide from=mean to=free",
+        ] {
+            let def = if head.starts_with("molodensky") { format!("{head} ellps_0={shape}") } else { format!("{head} ellps={shape}") };
+            let geo = crate::wire::data_of(&[[0.2, 0.9, 10.0, 2020.0], [-1.0, -0.3, 0.0, 2020.0], [0.1, 1.55, 0.0, 0.0]]);
+            let plane = crate::wire::data_of(&[[500000.0, 6100000.0, 10.0, 2020.0], [-1.2e6, -3.0e6, 0.0, 2020.0], [0.0, 0.0, 0.0, 0.0], [3.0, 1.0e7, 0.0, 0.0]]);
+            g.push(case("default", &[], &def, &geo), "oracle-ellipsoid-shapes", true);
+            g.push(case("default", &[], &def, &plane), "oracle-ellipsoid-shapes", true);
+        }
+        // ... and the public functions of the ellipsoid module on the same shapes, ordinary arguments
+        let (a, rf) = shape.split_once(',').unwrap();
+        let (a, rf): (f64, f64) = (a.parse().unwrap(), rf.parse().unwrap());
+        for args in [[0.9, 0.2, 100.0, 2020.0, 0.5, 1.0e6], [-0.3, 1.5, 0.0, 0.0, -2.0, 5.0e3], [1.2, -1.2, 6.0e6, 1.0, 0.1, 0.2], [3.0, 2.0e7, 1.0e7, 0.5, 3.0, 1.0e7]] {
+            let args: Vec<String> = args.iter().map(|v| fbits(*v)).collect();
+            g.push(format!("S_C09E\t{}\t{}\t{}", fbits(a), fbits(1.0 / rf), args.join(",")), "oracle-ellipsoid-shapes-functions", true);
+        }
+    }
     // the operators the model covers: the model predicts handle-or-error, count and values
     let modelled: Vec<String> = std::env::var("VERIF_MODELLED").unwrap_or_default().split(',').filter(|x| !x.is_empty() && names.iter().any(|n| n == x)).map(|x| x.to_string()).collect();
     for name in &modelled {
